@@ -6,6 +6,7 @@ from ._pag import F_META, HDR
 
 HDR5 = HDR + r'''
 from vf.fakes import FakeFrame
+from vf.hlib import with_tc
 DIV = "-----"
 PR = ["column", "first_row"]
 
@@ -161,7 +162,7 @@ def build(tier, seed):
         body=r'''
     r = token_renderer()
     info = {"group_values": {"s": a, "t": None if nb else b}}
-    out = PageRenderer._generate_subline_header(r, info)
+    out = with_tc(lambda: PageRenderer._generate_subline_header(r, info))
     want = a if nb else a + ", " + b
     return out.count("{\\f0 " + want + "}\\par}") == 1 and PageRenderer._generate_subline_header(r, {"group_values": {}}) == ""
 ''',
